@@ -53,6 +53,11 @@ pub struct Request {
     /// [IntrospectionMode::Enabled]).
     #[serde(skip)]
     pub introspection_mode: IntrospectionMode,
+
+    /// Reject the request if its operation is a mutation (set for requests
+    /// decoded from an HTTP GET query string).
+    #[serde(skip)]
+    pub(crate) disable_mutation: bool,
 }
 
 impl Request {
@@ -67,6 +72,7 @@ impl Request {
             extensions: Default::default(),
             parsed_query: None,
             introspection_mode: IntrospectionMode::Enabled,
+            disable_mutation: false,
         }
     }
 
@@ -103,6 +109,15 @@ impl Request {
     #[must_use]
     pub fn only_introspection(mut self) -> Self {
         self.introspection_mode = IntrospectionMode::IntrospectionOnly;
+        self
+    }
+
+    /// Refuse to execute the request if its operation is a mutation.
+    ///
+    /// Requests that arrive through HTTP `GET` must not execute mutations.
+    #[must_use]
+    pub fn disable_mutation(mut self) -> Self {
+        self.disable_mutation = true;
         self
     }
 
